@@ -853,6 +853,23 @@ def oracle_of(req):
             if m[i] is None:
                 return f"(var {o_cvi(i, m)})"
             return "(monoTy " + S(m[i][1]) + ")" if m[i][0] == "ty" else "error"
+        if k == "cv":
+            # const_var_to_hugr: a nat-typed const variable that stays generic is the HUGR variable numbered by the
+            # un-monomorphized parameters before it; a monomorphized one is its value
+            if req[2] != NAT:
+                return "error"
+            i = int(req[3])
+            if req[1] == "-":
+                return f"(var {i})"
+            m = un(req[1])
+            if i >= len(m):
+                return "error"
+            if m[i] is None:
+                return f"(var {o_cvi(i, m)})"
+            c = m[i][1] if m[i][0] == "const" else None
+            if c is not None and c[0] == "val" and c[2][0] in ("int", "bool"):
+                return f"(monoNat {int(c[2][1])})"
+            return "error"
     except NA:
         return None
     return None
@@ -914,8 +931,29 @@ def _prog_problems(src, entry="entry"):
     return PG.check_hugr(r[2].hugr)
 
 
+def _unbound_at_runtime(prog):
+    """does running the lowered generic program hit an unbound type / const variable?"""
+    import c13_prog as PG
+    import hugr_interp as hi
+    r = _lower_outcome(PG.render(prog))
+    if r[0] != "ok":
+        return False
+    try:
+        hi.run(r[2].hugr, "entry", list(RT_INPUTS[0]), ret_shape=PG.ret_shape(prog))
+    except hi.InterpError as e:
+        return "unbound" in str(e)
+    except Exception:  # noqa: BLE001
+        return False
+    return False
+
+
 def _shrink(prog):
     """drop callers / entry calls while the oracle still reports a problem"""
+    import c13_prog as PG
+    return _shrink_by(prog, lambda p: bool(_prog_problems(PG.render(p))))
+
+
+def _shrink_by(prog, bad):
     import c13_prog as PG
     cur = prog
     budget = 24
@@ -927,7 +965,7 @@ def _shrink(prog):
                 break
             cand = PG.restrict(cur, {x["name"] for x in cur["callers"]} - {c["name"]})
             budget -= 1
-            if cand["calls"] and _prog_problems(PG.render(cand)):
+            if cand["calls"] and bad(cand):
                 cur, changed = cand, True
         for i in range(len(cur["calls"]) - 1, -1, -1):
             if len(cur["calls"]) <= 1 or budget <= 0:
@@ -935,7 +973,7 @@ def _shrink(prog):
             cand = PG.restrict(cur, {x["name"] for x in cur["callers"]}, set(range(len(cur["calls"]))) - {i})
             cand["callers"] = [c for c in cand["callers"] if any(k["caller"] == c["name"] for k in cand["calls"])]
             budget -= 1
-            if _prog_problems(PG.render(cand)):
+            if bad(cand):
                 cur, changed = cand, True
     return cur
 
@@ -1038,7 +1076,12 @@ def _prog_tie(ctx):
             r = _lower_outcome(c["source"], run["entry"])
             shape = json.loads(json.dumps(run["ret_shape"]), object_hook=None)
             shape = _shape(shape)
-            got = repr(hi.run(r[2].hugr, run["entry"], list(run["args"]), ret_shape=shape).outcome()) if r[0] == "ok" else r[0] + ": " + r[1]
+            try:
+                got = repr(hi.run(r[2].hugr, run["entry"], list(run["args"]), ret_shape=shape).outcome()) if r[0] == "ok" else r[0] + ": " + r[1]
+            except RecursionError:
+                raise
+            except Exception as e:  # noqa: BLE001
+                got = f"interpreter: {type(e).__name__}: {str(e)[:160]}"
             ctx.count("prog-run:" + PG.src_hash(c["source"]) + run["entry"], nontrivial=True, kind="prog:corpus-run:" + ("ok" if got == run["expect"] else "bad"))
             if got != run["expect"]:
                 ctx.violation("prog:" + PG.src_hash(c["source"] + run["entry"]),
@@ -1046,11 +1089,13 @@ def _prog_tie(ctx):
                               {"source": c["source"], "entry": run["entry"], "args": run["args"], "got": got, "expected": run["expect"]})
 
     # generated programs -----------------------------------------------------------------------
-    n_prog = ctx.n(30, 500)
+    n_prog = ctx.n(22, 400)
     pend = []          # caller instances awaiting the model rounds
+    n_bad = 0
     unsupported = 0
-    for _ in range(n_prog):
-        prog = PG.gen_program(ctx.rng)
+    for pi in range(n_prog):
+        # the first programs of every run contain `pick(k @comptime, .., xs: array[E, n])` and its mirrored control
+        prog = PG.gen_program(ctx.rng, ct_nat_pair=True if pi < 4 else None)
         src = PG.render(prog)
         r = _lower_outcome(src)
         n_mono = sum(1 for c in prog["callers"] if any(a["mode"] == "comptime" and a["ty"] != ("c", "nat") for a in c["args"]))
@@ -1059,11 +1104,27 @@ def _prog_tie(ctx):
             ctx.count("prog:" + PG.src_hash(src), nontrivial=False, kind="prog:rejected")
             ctx.broke("program generator produced a program the checker rejects (" + r[1] + "):\n" + src[:1500])
             continue
-        probs = ["lowering crashed although the checker accepted the program: " + r[1]] if r[0] == "crash" \
-            else PG.check_hugr(r[2].hugr)
+        if r[0] == "crash":
+            r2 = _lower_outcome(PG.render(prog, "spec"))
+            if r2[0] != "ok":
+                ctx.count("prog:" + PG.src_hash(src), nontrivial=False, kind="prog:twin-fails-too")
+                ctx.broke("generated program and its hand-specialised twin both fail to lower (" + r[1] + " / " + r2[1] + "):\n" + src[:1500])
+                continue
+            probs = ["lowering crashed although the checker accepted the program and its hand-specialised textual twin "
+                     "lowers fine: " + r[1]]
+        else:
+            try:
+                probs = PG.check_hugr(r[2].hugr)
+            except RecursionError:
+                raise
+            except Exception as e:  # noqa: BLE001  (a bug of the oracle must not abort the run)
+                ctx.count("prog:" + PG.src_hash(src), nontrivial=False, kind="prog:oracle-exception")
+                ctx.broke(f"Hugr oracle raised {type(e).__name__}: {str(e)[:200]} on\n" + src[:1500])
+                continue
         ctx.count("prog:" + PG.src_hash(src), nontrivial=nt, kind="prog:" + ("ok" if not probs else "bad"))
         if probs:
-            small = _shrink(prog)
+            n_bad += 1
+            small = _shrink(prog) if n_bad <= 3 else prog     # shrinking is slow: only the first failures
             ssrc = PG.render(small)
             sprobs = _prog_problems(ssrc) or probs
             ctx.violation("prog:" + PG.src_hash(ssrc),
@@ -1096,6 +1157,23 @@ def _prog_tie(ctx):
                                       {"source": src, "specialised_source": ssrc, "entry": "entry", "args": list(args),
                                        "generic": repr(og), "specialised": repr(osp), "python": repr(opy)})
         except (hi.Unsupported, hi.OutOfFuel) as e:
+            unsupported += 1
+            ctx.bump("prog:interp-" + type(e).__name__)
+        except hi.InterpError as e:
+            if "unbound" in str(e) and "variable" in str(e):
+                # the lowered Hugr refers to a type / const variable its FuncDefn does not bind
+                small = _shrink_by(prog, lambda p: _unbound_at_runtime(p))
+                ssrc = PG.render(small)
+                ctx.violation("prog:" + PG.src_hash(ssrc),
+                              f"the lowered Hugr of an accepted program uses a variable that is not bound by the enclosing "
+                              f"function (reference interpreter: {str(e)[:200]})",
+                              {"source": ssrc, "entry": "entry", "problems": [str(e)[:300]], "original_source": src})
+                continue
+            unsupported += 1
+            ctx.bump("prog:interp-InterpError")
+        except RecursionError:
+            raise
+        except Exception as e:  # noqa: BLE001  (interpreter / harness limitation: skip and count, never a violation)
             unsupported += 1
             ctx.bump("prog:interp-" + type(e).__name__)
         # ---- model tie data
@@ -1137,6 +1215,10 @@ def _prog_tie(ctx):
         for i in range(len(v["params"])):
             lines2.append(f"(cvi {i} {mono})")
             owner.append((v, "cvi", i))
+        for i, prm in enumerate(v["params"]):
+            if getattr(prm, "ty", None) is not None and X.ty_sexp(prm.ty) == "(num nat)":
+                lines2.append(f"(cv {mono} (num nat) {i})")
+                owner.append((v, "cv", i))
         for j, (kind, nm, gargs) in enumerate(v["sites"]):
             lines2.append("(pma (" + " ".join(X.param_sexp(p) for p in v["callee_params"][nm]) + ") " + X.args_sexp(gargs) + " " + mono + ")")
             owner.append((v, "site", j))
@@ -1145,6 +1227,8 @@ def _prog_tie(ctx):
     for (v, what, j), m in zip(owner, rep2):
         if what == "cvi":
             v.setdefault("cvi", {})[j] = m
+        elif what == "cv":
+            v.setdefault("cv", {})[j] = m
         else:
             v.setdefault("site_rem", {})[j] = m
     n_inst = n_sites = 0
@@ -1164,13 +1248,21 @@ def _prog_tie(ctx):
         def cvi(i, v=v):
             return v["cvi"].get(i, "ERR")
 
+        def cvn(i, v=v):
+            m = v.get("cv", {}).get(i, "ERR")
+            if m.startswith("(var "):
+                return "var" + m[5:-1]
+            if m.startswith("(monoNat "):
+                return "nat" + m[9:-1]
+            return "model:" + m
+
         exp = []
         for j, (kind, nm, _ga) in enumerate(v["sites"]):
             m = v["site_rem"].get(j, "error")
             if not m.startswith("("):
                 exp.append((kind, nm, ["model:" + m]))
             else:
-                exp.append((kind, nm, [PG.model_arg_canon(a, cvi) for a in P(m)[1]]))
+                exp.append((kind, nm, [PG.model_arg_canon(a, cvi, cvn) for a in P(m)[1]]))
         real = []
         for n in h:
             op = h[n].op
@@ -1185,6 +1277,23 @@ def _prog_tie(ctx):
             cname = h[callee[0]].op.f_name if callee else "?"
             if cname in PG_CALLEES:
                 real.append((type(op).__name__, cname, [PG.hugr_arg_canon(PG.J(a)) for a in op.type_args]))
+        want_nat = {cvn(i) for i in v.get("cv", {})}
+        for n in h:
+            op = h[n].op
+            if isinstance(op, ops.Call | ops.LoadFunc | ops.FuncDefn) or not isinstance(op, ops.Custom | ops.ExtOp):
+                continue
+            q = n
+            while q is not None and not isinstance(h[q].op, ops.FuncDefn):
+                q = h[q].parent
+            if q != node:
+                continue
+            for a in op.args:
+                ja = PG.J(a)
+                if ja.get("tya") == "Variable" and (ja.get("cached_decl") or {}).get("tp") == "BoundedNat":
+                    n_sites += 1
+                    if PG.hugr_arg_canon(ja) not in want_nat:
+                        ctx.broke(f"caller {v['caller']['name']} (mono {v['mono'][:120]}): an extension op has the nat argument "
+                                  f"{PG.hugr_arg_canon(ja)}, the model's const_var_to_hugr allows only {sorted(want_nat)}")
         n_sites += len(exp)
         if sorted(real) != sorted(exp):
             ctx.broke(f"HUGR type args of the call sites of caller {v['caller']['name']} (mono {v['mono'][:120]}): "
